@@ -351,7 +351,11 @@ func localDef(f *eng.Func, e ast.Expr) ast.Expr {
 	if !ok || v.IsField() || v.Parent() == nil || v.Parent() == v.Pkg().Scope() {
 		return nil
 	}
-	root := f.Root()
+	vf := f.P.EnclosingFuncAt(v.Pos())
+	if vf == nil {
+		return nil
+	}
+	root := vf.SynRoot()
 	if v.Pos() < root.Body.Pos() || v.Pos() > root.Body.End() {
 		return nil // parameter or result
 	}
@@ -427,4 +431,56 @@ func eqOperand(ft eng.Fact, isSubject func(ast.Expr) bool) (ast.Expr, bool) {
 		return x, true
 	}
 	return nil, false
+}
+
+// countedOver returns X when the loop runs once per element of X: `for range X`,
+// `for range len(X)`, `for i := range X`, or `for i := 0; i < len(X); i++`.
+func countedOver(info *eng.Info, st ast.Stmt) ast.Expr {
+	switch lp := st.(type) {
+	case *ast.RangeStmt:
+		if la := eng.LenArg(info, lp.X); la != nil {
+			return la
+		}
+		return lp.X
+	case *ast.ForStmt:
+		b, ok := eng.Unparen(lp.Cond).(*ast.BinaryExpr)
+		if lp.Cond == nil || !ok || b.Op != token.LSS {
+			return nil
+		}
+		la := eng.LenArg(info, b.Y)
+		iv := eng.ObjOf(info, b.X)
+		if la == nil || iv == nil {
+			return nil
+		}
+		init, ok := lp.Init.(*ast.AssignStmt)
+		if !ok || len(init.Lhs) != 1 || !eng.IsObj(info, init.Lhs[0], iv) || !isConstVal(info, init.Rhs[0], 0) {
+			return nil
+		}
+		post, ok := lp.Post.(*ast.IncDecStmt)
+		if !ok || post.Tok != token.INC || !eng.IsObj(info, post.X, iv) {
+			return nil
+		}
+		// the counter is not touched in the body
+		touched := false
+		ast.Inspect(lp.Body, func(n ast.Node) bool {
+			switch x := n.(type) {
+			case *ast.AssignStmt:
+				for _, l := range x.Lhs {
+					if eng.IsObj(info, l, iv) {
+						touched = true
+					}
+				}
+			case *ast.IncDecStmt:
+				if eng.IsObj(info, x.X, iv) {
+					touched = true
+				}
+			}
+			return true
+		})
+		if touched {
+			return nil
+		}
+		return la
+	}
+	return nil
 }
